@@ -73,6 +73,25 @@ def gen(ctx):
     for _ in range(200 if ctx.quick else 3000):
         sx, sy = rnd.choice([1, 2, 3, 5, 6, 7, 9, 12, 17, 33, 100, 1000]), rnd.choice([1, 2, 3, 4, 5, 7, 8, 31, 64, 65, 777])
         cases.append(("ident", "hilbert", [sx, sy], [rnd.randrange(sx), rnd.randrange(sy)]))
+    # 32-bit coordinate scalars (unsigned, int) through the probe backend: high coordinate bits must survive the interleave
+    for ct, cw in (("u32", 32), ("i32", 31)):
+        for N in (1, 2, 3, 4):
+            w = min(cw, 64 // N)
+            top = (1 << w) - 1
+            pats = [1, top, top - 1, 1 << (w - 1), (1 << (w - 1)) - 1, 0x55555555 & top, 0xAAAAAAAA & top, 65536 & top, 65535 & top] + [1 << b for b in range(w)]
+            ext = [(1 << cw) - 1] * N
+            for _ in range(60 if ctx.quick else 1500):
+                co = [min(ext[0] - 1, rnd.choice(pats + [rnd.getrandbits(w)])) for _ in range(N)]
+                for lay in ("mortonT", "mortonF"):
+                    cases.append(("idx", lay, ext, co, ct))
+            for j in range(N):
+                for b in range(w):
+                    co = [0] * N; co[j] = min(ext[0] - 1, 1 << b)
+                    for lay in ("mortonT", "mortonF"):
+                        cases.append(("idx", lay, ext, co, ct))
+        for _ in range(40 if ctx.quick else 800):
+            sx, sy = rnd.choice([3, 5, 9, 17, 100, 65537, 2 ** 20 + 1]), rnd.choice([2, 7, 33, 65536, 2 ** 20])
+            cases.append(("idx", "hilbert", [sx, sy], [rnd.choice([0, sx - 1, rnd.randrange(sx)]), rnd.choice([0, sy - 1, rnd.randrange(sy)])], ct))
     return cases
 
 
@@ -81,21 +100,23 @@ def evaluate(ctx, cases, cfgs):
     for o in ("pos_strided", "pos_morton_loop", "pos_morton_pdep", "pos_hilbert", "morton_bmi2_eq_portable", "hilbert_curve_shape"):
         corr.add_obl(o)
     exes = L.build(ctx, cfgs, what=("layout",))
-    mout = C.run_driver("driver", [L.model_line(lay, "u64", sz, co) for (op, lay, sz, co) in cases])
+    cases = [c if len(c) == 5 else tuple(c) + ("u64",) for c in cases]
+    mout = C.run_driver("driver", [L.model_line(lay, ct, sz, co) for (op, lay, sz, co, ct) in cases])
     for cfg in cfgs:
-        outs, _ = C.run_lines(exes[("layout", cfg)], [L.impl_line(op, lay, "u64", sz, co) for (op, lay, sz, co) in cases])
+        outs, _ = C.run_lines(exes[("layout", cfg)], [L.impl_line(op, lay, ct, sz, co) for (op, lay, sz, co, ct) in cases])
+        outs = [(o.split()[1] if (c[0] == "idx" and len(o.split()) == 2 and o.split()[0] == "1") else o) for c, o in zip(cases, outs)]
         hil = {}
         pair = {}
-        for (op, lay, sz, co), o, m in zip(cases, outs, mout):
+        for (op, lay, sz, co, ct), o, m in zip(cases, outs, mout):
             mpos = int(m.split()[0])
             ob = {"strided": "pos_strided", "hilbert": "pos_hilbert", "mortonF": "pos_morton_loop",
                   "mortonT": "pos_morton_pdep" if "bmi2" in cfg else "pos_morton_loop"}[lay]
-            cj = {"op": op, "lay": lay, "sz": sz, "co": co, "cfg": cfg}
-            key = {"kind": op, "lay": lay, "sz": sz, "co": co}
+            cj = {"op": op, "lay": lay, "sz": sz, "co": co, "ct": ct, "cfg": cfg}
+            key = {"kind": op, "lay": lay, "sz": sz, "co": co, "ct": ct}
             corr.configs[cfg] += 1
-            corr.dist[f"{op}/{lay}/N{len(sz)}"] += 1
+            corr.dist[f"{op}/{lay}/N{len(sz)}/{ct}"] += 1
             if lay != "hilbert" or sz[0] != sz[1] or (sz[0] & (sz[0] - 1)):
-                corr.case((op, lay, sz, co, cfg), mpos != 0 and L.prod(sz) >= 2)
+                corr.case((op, lay, sz, co, ct, cfg), mpos != 0 and L.prod(sz) >= 2)
             else:
                 corr.evaluations += 1
             if not o.isdigit():
@@ -113,19 +134,19 @@ def evaluate(ctx, cases, cfgs):
             elif dis:
                 corr.violation(ob, f"{lay} {sz} at {co} ({cfg}): position {got}, model {mpos}", cj, impl=o, model=m, oracle_fails=False, key=key, cfg=cfg)
             if lay.startswith("morton"):
-                pair.setdefault((op, tuple(sz), tuple(co)), {})[lay] = got
+                pair.setdefault((op, tuple(sz), tuple(co), ct), {})[lay] = got
             if lay == "hilbert" and sz[0] == sz[1] and (sz[0] & (sz[0] - 1)) == 0:
                 hil.setdefault(sz[0], {})[(co[0], co[1])] = got
             if len(corr.samples) < 10 and mpos > 5 and (not corr.samples or corr.samples[-1]["lay"] != lay):
                 corr.sample({"op": op, "lay": lay, "sz": sz, "co": co, "cfg": cfg, "impl": got, "model": mpos})
         # BMI2 and portable implementation give identical results
-        for (op, sz, co), d in pair.items():
+        for (op, sz, co, ct), d in pair.items():
             if len(d) == 2:
                 same = d["mortonT"] == d["mortonF"]
                 corr.add_obl("morton_bmi2_eq_portable", 1, 0 if same else 1)
                 if not same:
                     corr.violation("morton_bmi2_eq_portable", f"Morton {list(co)}: use_bmi2=true gives {d['mortonT']}, portable gives {d['mortonF']} ({cfg})",
-                                   {"op": op, "lay": "mortonT", "sz": list(sz), "co": list(co), "cfg": cfg}, impl=d, oracle_fails=True,
+                                   {"op": op, "lay": "mortonT", "sz": list(sz), "co": list(co), "ct": ct, "cfg": cfg}, impl=d, oracle_fails=True,
                                    key={"kind": "pair", "co": list(co)}, cfg=cfg)
         # the Hilbert layer visits every cell of the square exactly once, from the origin, edge-adjacent steps
         for n, cells in sorted(hil.items()):
@@ -167,7 +188,7 @@ def replay(ctx):
         n = c["sz"][0]
         cases = [("ident", "hilbert", [n, n], [x, y]) for x in range(n) for y in range(n)]
     else:
-        cases = [(c["op"], c["lay"], c["sz"], c["co"])]
+        cases = [(c["op"], c["lay"], c["sz"], c["co"], c.get("ct", "u64"))]
         if c["lay"].startswith("morton"):
-            cases.append((c["op"], "mortonF" if c["lay"] == "mortonT" else "mortonT", c["sz"], c["co"]))
+            cases.append((c["op"], "mortonF" if c["lay"] == "mortonT" else "mortonT", c["sz"], c["co"], c.get("ct", "u64")))
     return evaluate(ctx, cases, [c.get("cfg", "dbg")])
